@@ -416,7 +416,11 @@ func execBmtree(w *world, op ROp, viaValue bool) (out rOutcome) {
 		}
 		out.words = bmtree.AllPaths(m.mask, from, to)
 	case "bmtree.Decode":
-		out.words = bmtree.Decode(m.mask, m.bm)
+		if op.A&1 == 1 {
+			out.words = bmtree.Decode(m.mask, m.bmShort)
+		} else {
+			out.words = bmtree.Decode(m.mask, m.bm)
+		}
 	case "bmtree.PathLen":
 		p := m.paths[mod(op.A, np)]
 		out.ints = []int64{int64(bmtree.PathLen(p)), int64(bmtree.PathHeight(p)), int64(bmtree.PathBits(p)), int64(bmtree.PathMask(p))}
@@ -590,11 +594,11 @@ func execSigbits(w *world, op ROp) (out rOutcome) {
 
 // ---- plan generation --------------------------------------------------------
 
-func genReaders(seed uint64, allowFmt bool) *ReadersPlan {
+func genReaders(seed uint64, allowFmt bool, cold bool) *ReadersPlan {
 	r := engine.NewPRNG(seed)
 	p := &ReadersPlan{World: genWorldSpec(r)}
 	nt := 2 + r.Intn(3)
-	p.RefAfter = r.Chance(1, 4)
+	p.RefAfter = r.Chance(1, 4) || cold
 	// a run concentrates on a few functions and objects so that tasks really
 	// collide on the same data
 	nfocus := r.PickInt(1, 2, 4, 8, len(readerFns))
